@@ -1,5 +1,5 @@
 (* C12 — executable model of the descriptor machinery of webob/descriptors.py:
-     header_getter   (descriptors.py:115-137)  replace-all semantics, CR/LF refusal (after the delete!)
+     header_getter   (descriptors.py:115-137)  replace-all semantics, CR/LF refusal (before anything is deleted)
      environ_getter  (descriptors.py:16-45)    both forms (with and without default)
      converter       (descriptors.py:140-158)
      parse_int / parse_int_safe / serialize_int   (descriptors.py:253-268)
@@ -47,12 +47,13 @@ Fixpoint hg_get (key : str) (hl : pairs) : option str :=
 Definition hg_del (key : str) (hl : pairs) : pairs :=
   filter (fun kv => negb (str_eqb (lower (fst kv)) key)) hl.
 
-(* fset: fdel FIRST, then the checks; returns the new list and the exception, if any *)
+(* fset (as repaired by fixes/C12-17): the checks first, then fdel, then append; a refused value leaves the
+   list as it was.  Returns the new list and the exception, if any *)
 Definition hg_set (header : str) (value : option str) (hl : pairs) : pairs * option str :=
   let hl' := hg_del (lower header) hl in
   match value with
   | None => (hl', None)
-  | Some s => if has_crlf s then (hl', Some ValueError) else (hl' ++ [(header, s)], None)
+  | Some s => if has_crlf s then (hl, Some ValueError) else (hl' ++ [(header, s)], None)
   end.
 
 (* ------------------------------------------------------------------ environ_getter *)
@@ -153,9 +154,10 @@ Definition conv_int : conv := mkConv parse_int_safe serialize_int.
 Definition nonempty (s : str) : bool := match s with [] => false | _ => true end.
 Definition list_items (s : str) : list str :=
   filter nonempty (map (strip_by is_space_str) (split_c 44 s)).
+(* as repaired by fixes/C12-18: only an ABSENT header is None; an empty one is the empty tuple *)
 Definition parse_list (v : option str) : res val :=
   match v with
-  | None | Some [] => Ok VNone
+  | None => Ok VNone
   | Some s => Ok (VList (map VStr (list_items s)))
   end.
 Definition comma_sp : str := [44; 32].
